@@ -96,6 +96,11 @@ def check_output(method, out, S, f, d, cfg, exp, dtype_out=None):
     if (tot > Sf).any():
         bad.append(("sum<=input", "partitions add up to more than the input"))
         return bad
+    if exp["detected"] <= k and not np.array_equal(tot, Sf):
+        # whatever the classification of a boundary bin, every bin must end up in exactly one partition
+        bad.append(("sum-equals-input-when-enough-requested", "requested %d >= detected %d but partitions do not add up to the input (sum %r vs %r)" % (
+            k, exp["detected"], float(tot.sum()), float(Sf.sum()))))
+        return bad
     if exp["dontcare"]:
         return bad
     cast = (lambda a: a) if dtype_out is None else (lambda a: a.astype(dtype_out).astype(float))
@@ -198,6 +203,10 @@ def run_item(it):
     common.load_wavespectra()
     f, d = grid(it["nf"], it["nd"], it["seed"])
     E = spectra_of(it)
+    if it.get("fdesc"):
+        # the numpy-level functions accept a frequency axis stored in descending order (npstats.hs integrates |df|)
+        f = f[::-1].copy()
+        E = E[:, ::-1, :].copy()
     lo, hi = it.get("slice", (0, E.shape[0]))
     E = E[lo:hi]
     res = {"evals": 0, "n_nontrivial": 0, "samples": [], "outcomes": {}, "violations": [], "parts": {}}
@@ -235,6 +244,43 @@ def run_item(it):
 
 
 # ---- call sequences on grids of equal shape but different coordinates (stale caches keyed too narrowly) ----------
+def run_boundary(it):
+    """wind exactly on the wave-age boundary of one bin: agefac * wspd * cos(0) == celerity(f[k], dpt) bit for bit where that round-trips"""
+    common.load_wavespectra()
+    from wavespectra.core.utils import celerity
+    res = {"evals": 0, "n_nontrivial": 0, "samples": [], "outcomes": {}, "violations": [], "parts": {}}
+    nf, nd = 4, 6
+    f, d = grid(nf, nd, it["seed"])
+    E = gen.bumps(nf, nd, 2, [3.0, 1.0], base=0.05)
+    E = E[:: max(1, E.shape[0] // 12)][:12]
+    seen = set()
+    exact = 0
+    for dpt in (5.0, 50.0, 3000.0):
+        c = np.asarray(celerity(f, dpt), dtype=float)
+        for agefac in (1.7, 1.0):
+            for k in range(nf):
+                wspd = float(c[k] / agefac)
+                for j in range(nd):
+                    if agefac * wspd * math.cos(D2R * (d[j] - d[j])) == c[k]:
+                        exact += 1
+                    cfg = dict(ihmax=100, count=3, wspd=wspd, wdir=float(d[j]), dpt=dpt, agefac=agefac, wscut=0.3333)
+                    for b in range(E.shape[0]):
+                        for method in ("ptm1", "ptm2"):
+                            bad, exp = one_case(method, E[b], E[b], f, d, cfg)
+                            res["evals"] += 1
+                            if exp["detected"] >= 2:
+                                res["n_nontrivial"] += 1
+                            for cl, msg in bad:
+                                sig = "np_%s|%s|%s,wind-exactly-on-the-wave-age-boundary" % (method, cl, spec_pred(E[b], exp))
+                                if sig not in seen:
+                                    seen.add(sig)
+                                    res["violations"].append(Violation(PROP, sig, msg, dict(method=method, efth=E[b], f=f, d=d, cfg=cfg)))
+    res["outcomes"]["boundary configs with exact IEEE equality"] = exact
+    res["parts"]["wave-age-boundary"] = res["evals"]
+    res["samples"].append(dict(part="wave-age-boundary", f=f, d=d, cfg=dict(wspd="celerity(f[k],dpt)/agefac", wdir="d[j]"), efth=E[0]))
+    return res
+
+
 def run_sequence(it):
     common.load_wavespectra()
     res = {"evals": 0, "n_nontrivial": 0, "samples": [], "outcomes": {}, "violations": [], "parts": {}}
@@ -369,6 +415,10 @@ def run(rep, tier, seed, parts=None):
             items.append(dict(name="3x4-structured-fullwind", fam="structured", nf=3, nd=4, alpha=a3, cfgs=cfgw(WIND_FULL, (1, 2, 5), (100,)),
                               methods=["ptm1", "ptm2"], seed=seed, slice=(i * 40, (i + 1) * 40)))
         items.append(dict(name="3x4-structured-ptm3", fam="structured", nf=3, nd=4, alpha=a3, cfgs=cfg3(), methods=["ptm3"], seed=seed))
+        items.append(dict(name="3x4-structured-descending-freq", fam="structured", nf=3, nd=4, alpha=a3, cfgs=cfg3() + cfgw(WIND_SMALL[:8], (1, 3), (100,)),
+                          methods=["ptm1", "ptm2", "ptm3"], seed=seed, fdesc=True))
+        items.append(dict(name="4x6-bumps3-descending-freq", fam="bumps", nf=4, nd=6, k=3, heights=[3.0, 1.0, 0.6] if a3[2] <= 0 else [a3[2], a3[1] if a3[1] > 0 else 0.5, 0.6 * (a3[1] if a3[1] > 0 else 0.5)],
+                          cfgs=cfg3() + cfgw(WIND_SMALL[:4], (1, 2), (100,)), methods=["ptm1", "ptm2", "ptm3"], seed=seed, fdesc=True, slice=(0, 1500), rotate=True, per=2))
         # bigger products with rotating configurations
         big = [(2, 5), (1, 8)] + ([(3, 4), (2, 6)] if tier == "thorough" else [])
         allc = cfg3() + cfgw(WIND_SMALL, (1, 2, 3), (5, 100))
@@ -411,7 +461,11 @@ def run(rep, tier, seed, parts=None):
 
     seqs = [dict(level="sequence-item", shift=k) for k in range(2)] if (parts is None or "seq" in parts) else []
 
+    seqs = seqs + ([dict(level="boundary-item", seed=seed)] if (parts is None or "seq" in parts) else [])
+
     def dispatch(it):
+        if it.get("level") == "boundary-item":
+            return run_boundary(it)
         if it.get("level") == "sequence-item":
             return run_sequence(it)
         return run_acc(it) if it.get("level") == "accessor" else run_item(it)
